@@ -1275,7 +1275,7 @@ def run_shard(spec, rec):
 
 
 def plan(tier, seed):
-    n = 5 if tier == "quick" else 90
+    n = 5 if tier == "quick" else 150
     return [{"shard": s, "seed": seed, "kind": "random", "n": n, "calib": tier != "quick" or s % 4 == 0,
              "n_texts": 14 if tier == "quick" else 30} for s in range(16)]
 
